@@ -59,6 +59,10 @@ type TxResult struct {
 	Errno    syscall.Errno
 	FailedAt string
 	After    *Image // image after the transaction as SQLite sees it (commit only)
+
+	WalFirstFrame uint32
+	WalFrames     int
+	WalSalt       [2]uint32
 }
 
 // Conn is one simulated SQLite connection (its own process / lock owner).
